@@ -37,6 +37,11 @@ char *evbuffer_readln(struct evbuffer *buffer, size_t *n_read_out, enum evbuffer
 	vp_readln_calls++;
 	VP_ASSERT(eol_style == EVBUFFER_EOL_CRLF, "http_lines: HTTP reads lines with EVBUFFER_EOL_CRLF");
 	VP_ASSERT(buffer == vp_lines_buf, "http_lines: lines are read from the connection's input buffer");
+	if (vp_readln_calls > VP_L) {
+		/* constant bound for symbolic execution: the (VP_L+1)-th request can only find the supply empty */
+		VP_ASSERT(vp_line_next >= vp_nlines, "http_lines: more reads than lines (harness bound)");
+		return NULL;
+	}
 	if (vp_line_next >= vp_nlines)
 		return NULL;
 	n = vp_line_len[vp_line_next];
